@@ -61,6 +61,25 @@ SCHEMES = ["blast", "mrc", "mrt", "svd", "gmd", "alamouti"]
 
 
 def gen_channel(rng, scheme, kind):
+    given, H, kap = _gen_channel(rng, scheme, kind)
+    c = rng.random()
+    if c < 0.2:
+        # real-valued channel stored with a real dtype (complex data still sent)
+        given, H = np.ascontiguousarray(given.real), np.ascontiguousarray(H.real)
+        sv = np.linalg.svd(np.atleast_2d(H), compute_uv=False)
+        if sv[-1] < 1e-3 * sv[0]:
+            return _gen_channel(rng, scheme, kind)
+        kap = float(sv[0] / sv[-1])
+    elif c < 0.3 and scheme == "mrt" and H.size > 1:
+        # a transmit antenna with an exactly zero coefficient
+        z = int(rng.integers(0, H.size))
+        H = H.copy()
+        H[0, z] = 0.0
+        given = H[0].copy() if given.ndim == 1 else H.copy()
+    return given, H, kap
+
+
+def _gen_channel(rng, scheme, kind):
     scale = 10.0 ** rng.uniform(-2, 2)
     if scheme in ("blast", "svd", "gmd"):
         Nt = int(rng.integers(1, 7))
